@@ -140,8 +140,8 @@ def header(rng, maxsz_p=0.3):
 class C11(Prop):
     pid = "C11"
     pkg = "z"
-    quick_n = 260
-    thorough_n = 5200
+    quick_n = 1000
+    thorough_n = 20000
     rule = ("three families: (1) mixed Write/WriteSlice/Allocate/AllocateOffset/SliceAllocate/Grow/Reset sequences "
             "(fills: full, partial, none) with Bytes() compared after every mutation; (2) slice-only sequences read "
             "back through SliceOffsets/Slice/SliceIterate and sorted whole or between two slice boundaries; (3) sorter "
@@ -325,8 +325,47 @@ class C11(Prop):
         return line
 
     # ------------------------------------------------------------------ oracle
+    def well_formed(self, case):
+        """SortSliceBetween's precondition, decided from the case alone: start/end of the first sort are slice
+        boundaries of a buffer made of slices only (shrinking can produce cases that violate it; the code then
+        dies in a failed assert, which says nothing about the property)"""
+        sh = Shadow(case.args[0], int(case.args[1]), int(case.args[2]), int(case.args[3]))
+        lens = []
+        for op in case.ops:
+            fs = op.split()
+            k = fs[0]
+            nd = need(fs)
+            if nd is not None:
+                if sh.refused(nd):
+                    continue
+                shadow_apply(sh, fs)
+                if k == "ws":
+                    lens.append(len(unhx(fs[1])))
+                elif k == "sa":
+                    lens.append(int(fs[1]))
+                elif k != "grow" and nd > 0:
+                    lens = None
+                if lens is None:
+                    return not any(o.split()[0] in ("sort", "sortb") for o in case.ops)
+            elif k == "reset":
+                lens = []
+                sh.off = 8
+            elif k == "sort":
+                return True
+            elif k == "sortb":
+                s0, e0 = int(fs[1]), int(fs[2])
+                if s0 >= e0 or s0 == 0:
+                    continue
+                offs = [8]
+                for n in lens:
+                    offs.append(offs[-1] + 8 + n)
+                return s0 in offs and e0 in offs
+        return True
+
     def oracle(self, case, il):
         fails = []
+        if not self.well_formed(case):
+            return []
         if len(il) < len(case.ops):
             return ["implementation produced %d of %d result lines (crash / fatal assert?)" % (len(il), len(case.ops))]
         mode, cap, auto, maxsz = case.args[0], int(case.args[1]), int(case.args[2]), int(case.args[3])
@@ -345,6 +384,16 @@ class C11(Prop):
             out = l.split()
             if len(fails) > 3:
                 break
+            if k == "sortb" and int(fs[1]) < int(fs[2]) and int(fs[1]) != 0:
+                # start/end must be slice boundaries (the API's precondition); a case that violates it
+                # (only the shrinker makes such cases) says nothing about the property
+                bounds = None
+                if slices is not None:
+                    bounds = [8]
+                    for s_ in slices:
+                        bounds.append(bounds[-1] + 8 + len(s_))
+                if bounds is None or int(fs[1]) not in bounds or int(fs[2]) not in bounds:
+                    break
             if l.startswith("panic") and l != "panic maxsize" and not (k == "sortb" and fs[1] == "0"):
                 bad(i, "unexpected panic")
                 break
